@@ -241,6 +241,34 @@ func (engine *Engine) TakeSnapshot() error {
 		return err
 	}
 
+	// Write the snapshot itself first: the manifest must never name a snapshot that is not on disk.
+	// Create snapshot directory
+	snapshotDir := path.Join(engine.directory, "snapshots", fmt.Sprintf("%d", msec))
+	if err := os.MkdirAll(snapshotDir, os.ModePerm); err != nil {
+		return err
+	}
+
+	// Create snapshot file
+	f, err := os.OpenFile(path.Join(snapshotDir, "state.bin"), os.O_WRONLY|os.O_CREATE, os.ModePerm)
+	if err != nil {
+		log.Println(err)
+		return err
+	}
+	defer func() {
+		if err := f.Close(); err != nil {
+			log.Println(err)
+		}
+	}()
+
+	// Write state to file
+	if _, err = f.Write(out); err != nil {
+		return err
+	}
+	if err = f.Sync(); err != nil {
+		log.Println(err)
+	}
+
+	// Only now point the manifest at the new snapshot.
 	// os.Create will replace the old manifest file
 	mf, err = os.Create(path.Join(dirname, "manifest.bin"))
 	if err != nil {
@@ -268,32 +296,6 @@ func (engine *Engine) TakeSnapshot() error {
 	if err = mf.Close(); err != nil {
 		log.Println(err)
 		return err
-	}
-
-	// Create snapshot directory
-	dirname = path.Join(engine.directory, "snapshots", fmt.Sprintf("%d", msec))
-	if err := os.MkdirAll(dirname, os.ModePerm); err != nil {
-		return err
-	}
-
-	// Create snapshot file
-	f, err := os.OpenFile(path.Join(dirname, "state.bin"), os.O_WRONLY|os.O_CREATE, os.ModePerm)
-	if err != nil {
-		log.Println(err)
-		return err
-	}
-	defer func() {
-		if err := f.Close(); err != nil {
-			log.Println(err)
-		}
-	}()
-
-	// Write state to file
-	if _, err = f.Write(out); err != nil {
-		return err
-	}
-	if err = f.Sync(); err != nil {
-		log.Println(err)
 	}
 
 	// Set the latest snapshot in unix milliseconds
